@@ -1,8 +1,8 @@
-(* C18 at stream level: from the boolean scope `moving_scope_b` and an arbitrary handler oracle to the
+(* C18 at stream level: from the boolean scope `moving_scope2_b` (roots allowed) and an arbitrary handler oracle to the
    hypotheses of Proofs/Fk/MovingLibLookups.v. *)
 From BV Require Import Base.Prelude Model.Block Model.ForkDB Model.Forkable Model.ForkableLookups Model.Burst
-  Spec.Consumer Spec.Universe Spec.C01_Spec Spec.C01_Moving_Spec Spec.C18_Spec Spec.C18_Moving_Spec
-  Proofs.Fk.FixedLib Proofs.Fk.MovingLibInv Proofs.Fk.MovingLibLookups Proofs.Fk.FailPrefix Proofs.C02_Proofs.
+  Spec.Consumer Spec.Universe Spec.C01_Spec Spec.C01_Moving_Spec Spec.C01_Roots_Spec Spec.C18_Spec Spec.C18_Moving_Spec
+  Proofs.Fk.FixedLib Proofs.Fk.MovingLibInv Proofs.Fk.MovingLibLookups Proofs.Fk.FailPrefix Proofs.C02_Proofs Proofs.C01_Roots_Proofs.
 Local Open Scope N_scope.
 
 (* ---------------------------------------------------------------- the handler oracle *)
@@ -54,14 +54,14 @@ Section Scope.
   Let Hm : rooted_mode r0 m := proj1 Hscope.
   Let Hnew : f_new (c_filter cfgN) = true := proj1 (proj2 Hscope).
   Let Hundo : f_undo (c_filter cfgN) = true := proj1 (proj2 (proj2 Hscope)).
-  Let Hsc : moving_scope_b r0 h = true := proj2 (proj2 (proj2 Hscope)).
-  Let U_id := bridge_id h (m_wf r0 h Hsc) (m_par r0 h Hsc).
-  Let U_uniq := bridge_uniq h (m_wf r0 h Hsc).
-  Let U_up := bridge_up h (m_wf r0 h Hsc).
-  Let L_id : ri r0 <> 0 := proj1 (proj2 (proj2 (scope_parts r0 h Hsc))).
-  Let L_num := fun y Hy => proj2 (proj2 (mb_parts r0 h Hsc y Hy)).
-  Let L_up := fun x Hx => proj1 (proj2 (mb_parts r0 h Hsc x Hx)).
-  Let L_decl := bridge_decl r0 h Hsc.
+  Let Hsc : moving_scope2_b r0 h = true := proj2 (proj2 (proj2 Hscope)).
+  Let U_id := bridge_id h (m2_wf r0 h Hsc).
+  Let U_uniq := bridge_uniq h (m2_wf r0 h Hsc).
+  Let U_up := bridge_up h (m2_wf r0 h Hsc).
+  Let L_id : ri r0 <> 0 := proj1 (proj2 (proj2 (scope2_parts r0 h Hsc))).
+  Let L_num := fun y Hy => proj2 (mb2_parts r0 h Hsc y Hy).
+  Let L_up := fun x Hx => proj1 (mb2_parts r0 h Hsc x Hx).
+  Let L_decl := bridge2_decl r0 h Hsc.
 
   (* every observation point satisfies the invariant and its supplement *)
   Lemma point_inv pre rest evs s : h = pre ++ rest -> reaches cfg (fs_init m) pre evs s ->
